@@ -94,7 +94,10 @@ def check(case):
                         else:
                             obj = P.RotatingBloomFilter.frombytes(bytes(obj), max_queue_size=case["q"])
                     elif kind in ("expanding", "rotating"):
-                        obj.push()
+                        if kind == "rotating" and step % 2 == 1 and obj.current_queue_size > 1:
+                            obj.pop()  # an explicit pop: the counter keeps counting add calls
+                        else:
+                            obj.push()
                     if obj.elements_added != want:
                         return f"step {step} after {op}: {type(obj).__name__}.elements_added {obj.elements_added} != number of add calls {want}"
                     if kind == "ondisk":
@@ -120,6 +123,10 @@ def check(case):
                         u = obj.union(other)
                         if u.elements_added != u.estimate_elements():
                             return f"step {step}: union's element count {u.elements_added} is not its estimate {u.estimate_elements()}"
+                        for nm in ("union", "intersection"):
+                            s_ = getattr(obj, nm)(obj)  # a filter combined with itself: the same documented quantity
+                            if s_ is None or s_.elements_added != s_.estimate_elements():
+                                return f"step {step}: {nm} of a filter with itself has element count {None if s_ is None else s_.elements_added}, its estimate is {None if s_ is None else s_.estimate_elements()}"
                 elif kind in ("cbf", "cms"):
                     if op == "add":
                         obj.add(key, n)
